@@ -9,6 +9,15 @@ def check(ctx):
         ctx.verus_unit(chardata.make_unit(ctx.scratch.dir), finder=None)
     except Lost as e:
         ctx.undecided.append('chardata reason=lost anchor: %s' % e)
+    # the tree walk: the list of incompatibilities is empty <==> everything below the element that belongs to the file is permitted
+    from contracts import compatwalk
+    try:
+        ctx.verus_unit(compatwalk.make_unit(ctx.scratch.dir), finder=None)
+        ctx.native_ground('lib', 'tables_crosstype', 'complete',
+                          'table fact assumed by unit compatwalk (axiom_crosstype) evaluated on the real statics: an index list found in one listing of a sub-element name resolves to an element entry in every other listing of that name under the same parent type (makes the unwrap in Element::check_version_compatibility safe)')
+        ctx.native_ground('lib', 'tables_wf', 'complete', 'wf_tables() assumed by the lookup contracts unit compatwalk calls, evaluated on the real statics')
+    except Lost as e:
+        ctx.undecided.append('compatwalk reason=lost anchor: %s' % e)
     specs = [dict(name='version_compat_all', module='chardata', kind='complete', timeout=1500,
                   desc='CharacterData::check_version_compatibility over all value kinds, all 21 target versions, enum specs with up to 3 symbolic (item, mask) entries: (ok, mask) with ok <=> target in mask for enum data against an enum spec; mask is the mask of the first entry for the item, 0 if the item is not in the spec; non-enum spec => (true, u32::MAX); non-enum data against an enum spec => not ok; and ok == check_value(relabelled version)')]
     ctx.kani('autosar-data', specs)
@@ -41,6 +50,6 @@ def check(ctx):
             ctx.add(Obligation(ctx.prop, name, 'native-eval', 'bounded', 'discharged', seconds=secs, bound=bound,
                                detail='check_version_compatibility lists nothing <=> relabelled text loads strictly <=> mask contains the target <=> set_version succeeds (and then alters nothing) [%s]%s' % (last, ' -- except the recorded known finding(s)' if fails else '')))
     return ctx.finish(
-        explanation='Verus proves on the real text of CharacterData::check_version_compatibility, check_value, parse and AutosarVersion::compatible, for every value, every spec (enumerations of any length) and every declared version: the check reports no incompatibility exactly when the value is valid for the spec relabelled with the target version, and for enum values the returned mask is the spec mask of the value (0 if unlisted) and contains the target exactly in that case. One of the three mechanisms of the property is pure and under contract: the value-level compatibility function. A loop-free Kani harness over all kinds, all declared versions and symbolic enum specs discharges: ok <=> target version in the returned mask (enum data, enum spec), the mask is the spec mask of the value, unknown value => (false, 0), non-enum spec => compatible with everything, and agreement with the validator rule (check_value for the relabelled version). The recursive walk over the element tree (Element::check_version_compatibility, recalc_element_type) and the gate ArxmlFile::set_version take element locks and are not reachable by either verifier (DESIGN F3); they are not covered.',
+        explanation='Unit compatwalk: Verus proves on the real text of Element::check_version_compatibility (the recursive tree walk) and recalc_element_type, over an abstract reading of the element graph (opaque handles with uninterpreted name / type / parent / attributes / content / sub-elements, tree well-founded, types consistent with the parents\' listings) and any table contents, that the returned list of incompatibilities is empty exactly when tree_compat holds: the element has a SHORT-NAME if the type used in the target version is identifiable there, every attribute is listed for that type, available in the target version and has a value valid there, all character data is valid for that type\'s spec, and every sub-element belonging to the file is permitted in the target version and compatible below; the unwrap of the cross-type mask lookup is safe by a closed table fact (ground check). Unit chardata: Verus proves on the real text of CharacterData::check_version_compatibility, check_value, parse and AutosarVersion::compatible, for every value, every spec (enumerations of any length) and every declared version: the check reports no incompatibility exactly when the value is valid for the spec relabelled with the target version, and for enum values the returned mask is the spec mask of the value (0 if unlisted) and contains the target exactly in that case. One of the three mechanisms of the property is pure and under contract: the value-level compatibility function. A loop-free Kani harness over all kinds, all declared versions and symbolic enum specs discharges: ok <=> target version in the returned mask (enum data, enum spec), the mask is the spec mask of the value, unknown value => (false, 0), non-enum spec => compatible with everything, and agreement with the validator rule (check_value for the relabelled version). The recursive walk over the element tree (Element::check_version_compatibility, recalc_element_type) and the gate ArxmlFile::set_version take element locks and are not reachable by either verifier (DESIGN F3); they are not covered.',
         checker_cmd='verus generated/chardata.rs; cargo kani --harness version_compat_all; cargo kani --harness version_roundtrip_each',
-        trusted_base=['Verus 0.2026.09.13 + Z3', 'Kani 0.68 + CBMC 6.11', 'leaves of the chardata unit: pattern validator call (C19), EnumItem::from_str (C18), str::parse, string bytes -- uninterpreted'])
+        trusted_base=['unit compatwalk: the reading of the element graph (handles, single-threaded lock success, well-founded tree = C03, type consistency of the model as a precondition); the returned version mask is not part of the tree-walk contract', 'Verus 0.2026.09.13 + Z3', 'Kani 0.68 + CBMC 6.11', 'leaves of the chardata unit: pattern validator call (C19), EnumItem::from_str (C18), str::parse, string bytes -- uninterpreted'])
